@@ -31,7 +31,9 @@ def gen_provisions(rng, W, ind, depth, out, provs, used_nums):
     used_nums.add(key)
     p = Prov(kw, num, None, ind)
     p.start = len(out)
-    line = '  ' * ind + kw + ' ' + num
+    # now and then an explicit eId in the source (the generator replaces it by the one derived from the number), and elsewhere
+    # internal references to such ids: what they point at lies outside the provision that holds them
+    line = '  ' * ind + kw + (rng.choice(['{eId commencement}', '{eId sec_99}', '{eId x}']) if rng.random() < 0.12 else '') + ' ' + num
     if rng.random() < 0.5: line += ' - ' + W.words(1, 3)
     out.append(line)
     if rng.random() < 0.2: out.append('  ' * (ind + 1) + 'SUBHEADING ' + W.words(1, 2))
@@ -44,7 +46,9 @@ def gen_provisions(rng, W, ind, depth, out, provs, used_nums):
             gen_provisions(rng, W, ind + 1, depth + 1, out, provs, sub_used)
         elif r < 0.55:
             out.append('  ' * (ind + 1) + 'CROSSHEADING ' + W.words(1, 2))
-        elif r < 0.70:
+        elif r < 0.60:
+            out.append('  ' * (ind + 1) + W.words(1, 2) + ' {{>#%s %s}} ' % (rng.choice(['commencement', 'sec_99', 'x', 'sec_1', 'nowhere']), W.words(1, 2)) + W.words(1, 2))
+        elif r < 0.72:
             # footnotes that stay inside the provision: a reference always has its block right after its paragraph (so the nearest
             # matching block is its own, alone and in context); markers come from a small pool, so other provisions reuse them; and now
             # and then a block that nothing refers to, which stays behind as ordinary content - alone and in context
